@@ -380,7 +380,7 @@ class VectorSplineFit(Contract):
         for _ in range(10):
             n = rng.choice([4, 5, 6, 8, 9])
             arrs = tuple(nrng.uniform(-3, 3, n) for _ in range(6))
-            est = verde.VectorSpline2D(poisson=rng.choice([0.5, -0.3, 1.0]), mindist=rng.choice([0.5, 2.0]), damping=rng.choice([None, 1e-2]))
+            est = verde.VectorSpline2D(poisson=rng.choice([0.5, -0.3, 1.0, -1.0]), mindist=rng.choice([0.5, 2.0]), damping=rng.choice([None, 1e-2]))
             est._given_force_coords = None
             if n % 2 == 0 and rng.random() < 0.6:  # gridded (2-D) inputs: components are raveled, THEN stacked
                 arrs = tuple(x.reshape(2, -1) for x in arrs)
